@@ -164,7 +164,11 @@ def r2_payload_sites(ctx):
                         if isinstance(k, ast.Constant) and k.value == 'content-length':
                             cl = v
                 ctx.check(cl is not None, 'C16.R2', f'{func_label(f)}|content-length-declared', site, f'{f.name}: content-length is declared', f'{f.name}: no content-length header')
-    ctx.floor('C16.R2', 'S3 request sites', n, 7)
+    ctx.floor('C16.R2', 'S3 request sites', n, 4)
+    from .c12 import r2c_fresh_body_iterator
+
+    # the body that is hashed and declared must be the body that every attempt sends
+    r2c_fresh_body_iterator(ctx, 'C16.R2')
     # empty digest constant
     v = mod.assigns.get('_empty_payload_digest')
     ok = isinstance(v, ast.Call) and dotted(v.func) == '_get_data_hexdigest' and v.args and isinstance(v.args[0], ast.Constant) and v.args[0].value == b''
